@@ -230,4 +230,4 @@ def run(chk):
     r5_unregister(chk)
     r6_waitgroup(chk)
     r7_done_guarded(chk)
-    # r8_monitor_never_blocks(chk)  # armed once the triage of its report on the pinned tree is back
+    r8_monitor_never_blocks(chk)
